@@ -40,6 +40,9 @@ def c02(chk):
         count_cases(chk, summ, lambda r: (r["nonce"], r.get("len", 0) // 20000, r.get("status"))
                     if r["ev"] == "obs.rpc_result" and r.get("ok") else None)
     sample_events(chk, summ, ("obs.rpc_call", "app.start", "app.end", "obs.rpc_result"), n=4)
+    # frame limits that differ between caller and callee: what one side refuses the other never sees as a
+    # shorter message (a refused body is an error, not an empty body)
+    rpc_runs(chk, "sizes", mode="sizes", faults=0, calls=60, seed=chk.seed + 2, runs=4 if quick(chk) else 60, jobs=6, files=2)
     # the middleware an application may put around its service or its calls (anemo-tower: request id,
     # set header, classifier, callback, trace): each changes exactly what AnemoTowerMisc says, nothing else
     tables = vlib.tlc_tables("AnemoTowerMisc.tla", "AnemoTowerMisc.cfg")
